@@ -30,4 +30,5 @@ regen 242469c C35 2000 C35-indexerror-leaves-unvalidated.json C35.state-changed-
 regen 368e37e C39 3000 C39-overwrite-merge.json C39.final-contents
 regen 55c8edc C34 400 C34-malformed-element-aborts-batch.json C34.good-announcement-suppressed
 regen 60a3b33 C32 100 C32-preferred-peers-str-vs-bytes.json C32.preferred-not-first
+regen 2fef311 C44 600 C44-late-second-uploader-attributeerror.json C44.faultfree-upload-failed
 rm -rf $S
